@@ -195,7 +195,7 @@ Record obs := {
   o_name : list N;          (* 11 functor(A, Name, _) *)
   o_univ : N;               (* 12 length of L in A =.. L *)
   o_copy : list N;          (* 13 copy_term(A, C) *)
-  o_findall : list N;       (* 14 findall(X, X = A, [C]) *)
+  o_findall : option (list N);  (* 14 findall(X, X = A, [C]); None: not observed *)
   o_assert : list N;        (* 15 assertz(t(A)), t(C), retract(t(_)) *)
   o_atomchars : list N;     (* 16 atom_chars(At, A), atom_chars(At, C) *)
   o_sort : list N;          (* 17 sort/2 *)
@@ -219,7 +219,7 @@ Definition predict (a b : list N) (k : N) : obs :=
      o_arity := match a with [] => 0 | _ => 2 end;
      o_name := match a with [] => nil_name | _ => dot end;
      o_univ := match a with [] => 1 | _ => 3 end;
-     o_copy := a; o_findall := a; o_assert := a; o_atomchars := a;
+     o_copy := a; o_findall := Some a; o_assert := a; o_atomchars := a;
      o_sort := sort_chars true a;
      o_ksort := sort_chars false a;
      o_ground := true;
@@ -236,7 +236,7 @@ Definition obs_diff (x y : obs) : list N :=
   ++ f 6 (match o_splits y with None => true | _ => opt_eqb N.eqb (o_splits x) (o_splits y) end)
   ++ f 7 (opt_eqb N.eqb (o_nth x) (o_nth y)) ++ f 8 (opt_eqb N.eqb (o_head x) (o_head y))
   ++ f 9 (opt_eqb bytes_eqb (o_tail x) (o_tail y)) ++ f 10 (o_arity x =? o_arity y) ++ f 11 (bytes_eqb (o_name x) (o_name y))
-  ++ f 12 (o_univ x =? o_univ y) ++ f 13 (bytes_eqb (o_copy x) (o_copy y)) ++ f 14 (bytes_eqb (o_findall x) (o_findall y))
+  ++ f 12 (o_univ x =? o_univ y) ++ f 13 (bytes_eqb (o_copy x) (o_copy y)) ++ f 14 (match o_findall y with None => true | _ => opt_eqb bytes_eqb (o_findall x) (o_findall y) end)
   ++ f 15 (bytes_eqb (o_assert x) (o_assert y)) ++ f 16 (bytes_eqb (o_atomchars x) (o_atomchars y))
   ++ f 17 (bytes_eqb (o_sort x) (o_sort y)) ++ f 18 (bytes_eqb (o_ksort x) (o_ksort y))
   ++ f 19 (Bool.eqb (o_ground x) (o_ground y)) ++ f 20 (o_nvars x =? o_nvars y).
